@@ -28,6 +28,15 @@ func fmtThreads(ths []tspec) string {
 	return sb.String()
 }
 
+func hasFault(ths []tspec) bool {
+	for _, t := range ths {
+		if t.fault != "" {
+			return true
+		}
+	}
+	return false
+}
+
 func schedCase(tc int64, ta, key, max int, preC int64, preN int, ths []tspec, evs []string) string {
 	return fmt.Sprintf("sched code %d %d key %d max %d pre %d %d %s ev %d %s", tc, ta, key, max, preC, preN, fmtThreads(ths), len(evs), strings.Join(evs, " "))
 }
@@ -140,6 +149,48 @@ func gen(out *vc.Out, r *vc.Rand, thorough bool) {
 		})
 	}
 
+	// N: the calls come through different cluster nodes: each call has its own HybridStorage (node-local cache)
+	// over the cache all nodes share; what excludes the calls from each other must live in the shared one
+	ln := 9
+	if thorough {
+		ln = 11
+	}
+	words(2, ln, func(w []string) {
+		add("nodes" + strings.TrimPrefix(schedCase(500, 1, 1, 50, 0, 0, two, append([]string{"C"}, w...)), "sched"))
+		out.Count("nodes:2act")
+	})
+	words(3, 7, func(w []string) {
+		add("nodes" + strings.TrimPrefix(schedCase(500, 2, 1, 50, 0, 0, three, append([]string{"C"}, w...)), "sched"))
+		out.Count("nodes:2act+revoke")
+	})
+	for i := 0; i < 40; i++ {
+		// quota filled by mappings created on another node, expiry seen by every node
+		evs := []string{"C", "t0", "t1", "t0", "t1", "t0"}
+		if i%4 == 0 {
+			evs = []string{"C", "t0", "t0", "X", "t1"}
+		}
+		add("nodes" + strings.TrimPrefix(schedCase(500, 1, i%2, 1+i%3, 101, i%3, two, evs), "sched"))
+		out.Count("nodes:quota,expiry")
+	}
+
+	// U: unique code generation on a tiny code space (the real CreateConnectionCode keeps drawing codes that exist)
+	for n := 1; n <= 3; n++ {
+		for i := 0; i < 12; i++ {
+			var ops []string
+			created := 0
+			for k := 0; k < 4+n*2; k++ {
+				if created == 0 || r.Intn(2) == 0 {
+					ops = append(ops, "c")
+					created++
+				} else {
+					ops = append(ops, fmt.Sprintf("a%d", r.Intn(created)))
+				}
+			}
+			add(fmt.Sprintf("uniq cs %d ops %d %s", n, len(ops), strings.Join(ops, " ")))
+			out.Count("unique:small-space")
+		}
+	}
+
 	// D: every single write-failure position of one activation / one revocation
 	aw, rw := discoverWrites("a"), discoverWrites("r")
 	out.Count(fmt.Sprintf("faultpoints:activate=%d,revoke=%d", len(aw), len(rw)))
@@ -239,7 +290,7 @@ func gen(out *vc.Out, r *vc.Rand, thorough bool) {
 		}
 		max, preN := 50, 0
 		if r.Intn(5) == 0 {
-			max, preN = 1+r.Intn(2), r.Intn(3)
+			max, preN = r.Intn(3), r.Intn(3) // 0 = nothing may be activated, 1/2 with 0..2 existing: below, at, above the limit
 		}
 		var evs []string
 		cpos := 0
@@ -290,7 +341,12 @@ func gen(out *vc.Out, r *vc.Rand, thorough bool) {
 		if r.Intn(6) == 0 {
 			ths[r.Intn(n)].fault = vc.Pick(r, faults)
 		}
-		add(fineCase(r.Uint64(), 500, 1+r.Intn(2), 50, 0, 0, ths))
+		fc := fineCase(r.Uint64(), 500, 1+r.Intn(2), 50, 0, 0, ths)
+		if i%3 == 0 && !hasFault(ths) {
+			fc = "n" + fc // the same through separate cluster nodes
+			out.Count("random:nfine")
+		}
+		add(fc)
 		out.Count("random:fine")
 	}
 
